@@ -168,6 +168,15 @@ def run(ctx):
     for _ in range(24 if quick else 400):
         vspecs.append({"seed": ctx.rng.randrange(1, 2 ** 31), "nsite": ctx.rng.randint(2, 4 if quick else 5), "qn": ctx.rng.choice([1, 2]),
                        "kind": "mps", "recipe": ctx.rng.choice(["random", "add", "product"]), "complex": ctx.rng.random() < 0.5, "m": 3})
+    # hard cases: zero-percent sweeps from the start, start guess of bond dimension 1 or 2, 8..10 sites.
+    # demanded: spin chain (no symmetry) with M = largest exact Schmidt rank, 1site and 2site; hopping chain
+    # (one conserved label) 2site with M = the exact bound 2^(n/2) (no truncation inside the sweeps).
+    # measured only: hopping chain with M = largest exact Schmidt rank (can stagnate on HEAD from a poor guess);
+    # not generated: 1site on the hopping chain (a one-site update cannot change the label structure of the guess).
+    for k in range(16 if quick else 160):
+        chain, method, mrule = [("spin", "2site", "rank"), ("spin", "1site", "rank"), ("hop", "2site", "full"), ("hop", "2site", "rank")][k % 4]
+        vspecs.append({"hard": 1, "seed": ctx.rng.randrange(1, 2 ** 31), "chain": chain, "method": method, "mrule": mrule,
+                       "nsite": 8 if quick else ctx.rng.choice([8, 9, 10]), "guess_m": 1 + (k // 4) % 2, "nsweep": 30})
     vsh = [[] for _ in range(4 if quick else 12)]
     for i, sp in enumerate(vspecs):
         vsh[i % len(vsh)].append([i, sp])
@@ -175,13 +184,17 @@ def run(ctx):
                         timeout=160 if quick else 1300, par=len(vsh))
     vres = [(rc, load_file(res), out) for rc, res, out in vres]
     shutil.rmtree(tmpd, ignore_errors=True)
-    vcases, verrs = [], []
+    vcases, verrs, vhard = [], [], []
     for rc, res, out in vres:
         if res is None:
             harness_bad.append(out[-1200:])
         else:
             vcases += res["cases"]
             verrs += res["errors"]
+            vhard += res.get("hard", [])
+    vhard_dem = [c for c in vhard if not (c["spec"]["chain"] == "hop" and c["spec"]["mrule"] == "rank")]
+    vhard_meas = [c for c in vhard if c["spec"]["chain"] == "hop" and c["spec"]["mrule"] == "rank"]
+    vhard_bad = [c for c in vhard_dem if not c["res"]["err"] <= 1e-6]
     # ------------------------------------------------------------------ 4. correspondence (exact, vm_compute)
     corr_bad = []
     n_sched = 0
@@ -305,6 +318,13 @@ def run(ctx):
                        "correspondence": corr_bad[:4]},
                       found=True, repro=REPRO % (impl_dir, repr(f0["spec"])))
         reported = True
+    if vhard_bad:
+        sp = vhard_bad[0]["spec"]
+        ctx.violation("variational-compress-not-converged",
+                      "; ".join(broken_parts + ["dense oracle: variational_compress(mpo, guess) with sufficient bond limit and 30 zero-percent sweeps differs from dense mpo@mps"]),
+                      {"count": len(vhard_bad), "of": len(vhard_dem), "first": vhard_bad[:3], "coq_log_tail": (log or "")[-800:] if not proofs_ok else ""},
+                      found=True, repro=REPRO_VAR.replace("1e-8", "1e-6") % (impl_dir, repr(sp)))
+        reported = True
     if vbad or verrs:
         sp = (vbad[0] if vbad else verrs[0])["spec"]
         ctx.violation("variational-compress", "dense oracle only: variational_compress(mpo) vs mpo@mps (clause is variational_partial)",
@@ -344,10 +364,12 @@ def run(ctx):
             "max_dense_relerr": stats.get("max_dense_err"), "max_isometry_dev": stats.get("max_iso_dev"),
             "max_scaled_isometry_dev_mpo": stats.get("max_iso_dev_scaled"),
             "mpo_after_compress_max_scaled_isometry_dev (not demanded)": stats.get("mpo_compress_max_scaled_iso_dev"),
+            "variational_hard_cases_demanded": len(vhard_dem), "variational_hard_max_relerr": max([c["res"]["err"] for c in vhard_dem] or [0.0]),
+            "variational_hard_rank_limited_hopping (measured only)": {"cases": len(vhard_meas), "not_converged": sum(1 for c in vhard_meas if c["res"]["err"] > 1e-6)},
             "variational_cases": len(vcases), "variational_max_relerr": max([max(c["res"]["2site"], c["res"]["1site"]) for c in vcases] or [0.0]),
             "by_kind_recipe_length": hist}
     ctx.notes.append("interpretation: Mpo sites are isometries up to a per-site weight after canonicalise; Mpo compress keeps u*sigma (not canonical) -- measured deviation %s" % stats.get("mpo_compress_max_scaled_iso_dev"))
-    return {"evaluations": n_sched + n_iter + stats.get("svd_qn_calls", 0) + len(vcases),
+    return {"evaluations": n_sched + n_iter + stats.get("svd_qn_calls", 0) + len(vcases) + len(vhard),
             "distinct_nontrivial": len(nontriv),
             "rule": "evaluations = schedule records compared with the Coq-evaluated generated code + exhaustive iter_idx_list/_switch_direction grid points (site_num 1..7) + svd_qn calls whose contract was checked + variational cases; distinct_nontrivial = number of distinct (kind, recipe, chain length, label components, real/complex) classes of generated objects that ran through all operations",
             "samples": samples[:3], "exhaustive": False, "input_distribution": dist}
